@@ -116,7 +116,61 @@ func TestC09(t *testing.T) {
 		}
 		nb := append([]byte{}, old...)
 		how := ""
-		switch rapid.IntRange(0, 6).Draw(rt, "how") {
+		// embed writes material into the signature bits at a drawn offset (length kept)
+		embed := func(mat []byte, lbl string) {
+			if len(mat) == 0 || len(nb) < 3 {
+				return
+			}
+			if len(mat) > len(nb)-1 {
+				mat = mat[:len(nb)-1]
+			}
+			off := 1 + rapid.IntRange(0, len(nb)-1-len(mat)).Draw(rt, lbl+"off")
+			if rapid.Bool().Draw(rt, lbl+"fill") {
+				r := rapid.SliceOfN(rapid.Byte(), len(nb)-1, len(nb)-1).Draw(rt, lbl+"rnd")
+				copy(nb[1:], r)
+			}
+			copy(nb[off:], mat)
+		}
+		switch rapid.IntRange(0, 9).Draw(rt, "how") {
+		case 7:
+			// the signature bits spell a piece of the certificate's own tbsCertificate
+			tbs := v.TBS.Encode()
+			off := rapid.IntRange(0, len(tbs)-1).Draw(rt, "tbsoff")
+			embed(tbs[off:], "tbs")
+			how = "own-tbs-slice"
+		case 8:
+			// ... or one of its own extensions, re-encoded (as is / explicit critical FALSE / critical TRUE / the whole list)
+			if exts := v.Extensions(); exts != nil && len(exts.Children) > 0 {
+				x := exts.Children[rapid.IntRange(0, len(exts.Children)-1).Draw(rt, "ext")].Clone()
+				switch rapid.IntRange(0, 3).Draw(rt, "extform") {
+				case 0:
+				case 1:
+					if len(x.Children) == 2 {
+						x.Children = []*dt.Node{x.Children[0], dt.Prim(0, 1, []byte{0x00}), x.Children[1]}
+					}
+				case 2:
+					if len(x.Children) == 2 {
+						x.Children = []*dt.Node{x.Children[0], dt.Prim(0, 1, []byte{0xff}), x.Children[1]}
+					} else if len(x.Children) == 3 {
+						x.Children[1] = dt.Prim(0, 1, []byte{0x00})
+					}
+				default:
+					x = exts.Clone()
+				}
+				embed(x.Encode(), "ext")
+				how = "own-extension-reencoded"
+			} else {
+				nb[1] ^= 0x01
+				how = "first-byte"
+			}
+		case 9:
+			// ... or its own names / key
+			parts := [][]byte{v.Subject().Encode(), v.Issuer().Encode(), v.SPKI().Encode(), v.Validity().Encode(), v.Serial().Encode()}
+			if san := v.Ext(gen.OIDExtSAN...); san != nil {
+				parts = append(parts, gen.ExtValue(san).Body())
+			}
+			embed(parts[rapid.IntRange(0, len(parts)-1).Draw(rt, "part")], "part")
+			how = "own-name-or-key"
 		case 0:
 			r := rapid.SliceOfN(rapid.Byte(), len(old)-1, len(old)-1).Draw(rt, "rnd")
 			copy(nb[1:], r)
